@@ -479,7 +479,7 @@ func (s *UDPSession) Close() error {
 	s.mu.Unlock()
 
 	if s.l != nil { // belongs to listener
-		s.l.closeSession(s.remote)
+		s.l.unregisterSession(s)
 		return nil
 	}
 
@@ -1413,6 +1413,20 @@ func (l *Listener) closeSession(remote net.Addr) (ret bool) {
 
 	if _, ok := l.sessions[remote.String()]; ok {
 		delete(l.sessions, remote.String())
+		return true
+	}
+	return false
+}
+
+// unregisterSession removes s from the session table unless its address has
+// already been taken over by a newer session (same address, new conversation).
+func (l *Listener) unregisterSession(s *UDPSession) (ret bool) {
+	l.sessionLock.Lock()
+	defer l.sessionLock.Unlock()
+
+	key := s.remote.String()
+	if cur, ok := l.sessions[key]; ok && cur == s {
+		delete(l.sessions, key)
 		return true
 	}
 	return false
